@@ -15,7 +15,9 @@ fixed program of *clauses* is executed on the real library; a case is (file, cla
   write       with bnp.open(y.bam,'w') as f: f.write(selection of the lazily read table): y.bam is decoded by the
               INDEPENDENT decoder (records, including mate fields and tag bytes, equal the selected source records;
               the same reference names) and re-read by bionumpy (equal to the selected rows of the first read);
-              selections: whole, masks, reversal, repeats, slices, composed selections, chunk stream, piecewise.
+              selections: whole, masks, reversal, repeats, slices, composed selections, chunk stream, piecewise, and
+              write HISTORIES: a selection is written first, then the same object again / a further selection of it /
+              the table it was taken from is written and judged (writing compacts a lazy selection in place).
               Per C04 (BAM roots) the written record bytes must equal the source record bytes.
 
 Families (see bounds()): single-record shape product; sequence contents; CIGAR lists; scalar fields; qualities;
@@ -85,7 +87,7 @@ MANIFEST_TEXT = ('Exhaustive enumeration of BAM files built by an independent SA
                  'position products, reference tables of 0..3 names, all ordered files of 2 records over 6 record variants, of 3 '
                  'records over 4 of them plus a seed-rotated quarter of the rest (quick) / all ordered files of 2..4 records '
                  'over 6 variants and of 5 records over 4 (thorough) x EVERY chunk size from the largest record to '
-                 'total+2 x up to 13 write selections, the BGZF member boundary at every byte offset, and records with 16383/16384/65535 CIGAR ops '
+                 'total+2 x up to 13 write selections and 20 write histories (a selection is written, then the same object / a further selection of it / its parent table is written and judged), the BGZF member boundary at every byte offset, and records with 16383/16384/65535 CIGAR ops '
                  'or > 64 KiB. Each field of each record is compared with the encoder input (lazy and eager), intervals with '
                  'pos + reference-consuming lengths and strand from 0x10, chunked reads with the whole read, and written '
                  'files are decoded by an independent decoder and re-read by bionumpy.')
@@ -160,6 +162,13 @@ V_CORE = [0, 2, 3, 4]
 SELECTIONS = ['whole', 'mask-alt', 'mask-none', 'mask-all', 'rev', 'fancy-rep', 'slice1', 'step2', 'sel-sel', 'sel-sel-mask',
               'touch-then-mask', 'stream', 'piecewise']
 SEL_SINGLE = ['whole', 'mask-none', 'fancy-rep', 'stream']
+# write histories: a selection is written (to a scratch file), THEN a second table is derived and written; the second
+# file is the judged one.  'same' = the selection object itself once more, 'parent' = the table it was taken from.
+HISTORY_FIRST = ['mask-alt', 'rev', 'slice1', 'fancy-rep']
+HISTORY_SECOND = ['same', 'rev', 'slice1', 'mask-alt', 'parent']
+HISTORIES = ['after-write:%s:%s' % (a, b) for a in HISTORY_FIRST for b in HISTORY_SECOND]
+SELECTIONS = SELECTIONS + HISTORIES
+HISTORIES_SHORT = ['after-write:mask-alt:rev', 'after-write:rev:slice1', 'after-write:slice1:parent']
 UNJUDGED_WRITES = ['eager-whole', 'concat', 'row']
 
 
@@ -345,10 +354,10 @@ def fam_multi(tier, seed):
         core = all(i in V_CORE for i in t)
         if tier == 'quick' and not core and (sum(t) + seed) % 4 != 0:
             continue       # extension slice rotated by the seed; thorough runs every triple
-        out.append(F('multi3', [V[i] for i in t], chunks='all', writes=SELECTIONS if (core or tier == 'thorough') else ['whole', 'sel-sel']))
+        out.append(F('multi3', [V[i] for i in t], chunks='all', writes=SELECTIONS if (core or tier == 'thorough') else ['whole', 'sel-sel'] + HISTORIES_SHORT))
     if tier == 'thorough':
         for t in itertools.product(idx, repeat=4):
-            out.append(F('multi4', [V[i] for i in t], chunks='all', writes=['whole', 'mask-alt', 'sel-sel-mask', 'fancy-rep']))
+            out.append(F('multi4', [V[i] for i in t], chunks='all', writes=['whole', 'mask-alt', 'sel-sel-mask', 'fancy-rep'] + HISTORIES_SHORT))
         for t in itertools.product(V_CORE, repeat=5):
             out.append(F('multi5', [V[i] for i in t], chunks='all', writes=['whole', 'sel-sel-mask']))
     # one file with everything, a handful of chunk sizes
@@ -803,6 +812,10 @@ def clause_chunked(cx, k):
 
 def sel_indices(sel, n):
     idx = list(range(n))
+    if sel.startswith('after-write:'):
+        _, first, second = sel.split(':')
+        f = sel_indices(first, n)
+        return {'same': f, 'rev': f[::-1], 'slice1': f[1:], 'mask-alt': f[::2], 'parent': idx}[second]
     if sel in ('whole', 'mask-all', 'stream', 'piecewise', 'eager-whole'):
         return idx
     if sel in ('mask-alt', 'step2', 'touch-then-mask'):
@@ -876,7 +889,16 @@ def do_write(cx, sel):
             f.write(t[1:])
         return
     t = bnp.open(cx.path, lazy=False).read() if sel == 'eager-whole' else bnp.open(cx.path).read()
-    s = apply_sel(t, sel, b.n)
+    if sel.startswith('after-write:'):
+        _, first, second = sel.split(':')
+        s1 = apply_sel(t, first, b.n)
+        with bnp.open(cx.out + '.first.bam', 'w') as f:
+            f.write(s1)
+        m = len(sel_indices(first, b.n))
+        s = {'same': lambda: s1, 'rev': lambda: s1[::-1], 'slice1': lambda: s1[1:],
+             'mask-alt': lambda: s1[np.arange(m) % 2 == 0], 'parent': lambda: t}[second]()
+    else:
+        s = apply_sel(t, sel, b.n)
     with bnp.open(cx.out, 'w') as f:
         f.write(s)
 
